@@ -50,6 +50,9 @@ let out_str = function Done -> "ok" | IndexError -> "IndexError" | ValueErr -> "
 let bools_str l = if l = [] then "-" else String.concat "" (List.map (fun b -> if b then "1" else "0") l)
 let obj_str o = Printf.sprintf "%s,%s,%s,%d,%d" (string_of_pstr (text o)) (bools_str o.oeven) (bools_str o.oodd) (int_of_z (get_index o)) (int_of_z (get_diagonal_index o))
 
+let ascii_of_int n = Ascii (n land 1 = 1, n land 2 = 2, n land 4 = 4, n land 8 = 8, n land 16 = 16, n land 32 = 32, n land 64 = 64, n land 128 = 128)
+let asciis_of_hex h = List.init (String.length h / 2) (fun i -> ascii_of_int (int_of_string ("0x" ^ String.sub h (2 * i) 2)))
+
 let handle (toks : string list) : string =
   match toks with
   | ["sign"; p; q] -> res_str gi_str (sign_code (pstr_of_string p) (pstr_of_string q))
@@ -109,6 +112,10 @@ let handle (toks : string list) : string =
           | _ -> failwith "bad edit") (o0, []) ops in
       String.concat ";" (obj_str o0 :: List.rev acc)
   | ["genall"; n] -> strs (gen_all (nat_of_int (int_of_string n)))
+  | ["parse"; fixed; hex] ->
+      (match parse_text (fixed = "1") (asciis_of_hex (if hex = "-" then "" else hex)) with POk p -> "ok " ^ string_of_pstr p | PErr -> "ValueError")
+  | "klocal" :: n :: gens ->
+      res_str strs (k_local_generators (nat_of_int (int_of_string n)) (List.map pstr_of_string gens))
   | _ -> "ERR unknown request"
 
 let () =
